@@ -800,3 +800,19 @@ package randomness
 //@   loop 1
 //@     invariant len(bits) == 8*$i && fresh(bits) && off(bits) == 0 && len(buf) == filelen(filename)
 //@     invariant forall k int :: {bits[k]} 0 <= k && k < 8*$i ==> bits[k] == expand(buf)[k]
+
+// ---------------------------------------------------------------------------------------------
+// incomplete gamma (C06 not applicable): the numeric contracts are assumptions (`trusted`); only the
+// straight-line clamp clauses of igamc are verified against the body (pinned under C16).
+
+//@ func logGamma
+//@   trusted
+//@   modifies nothing
+//@   pure
+//@   ensures r0 == lgammaR(x)
+
+//@ func igam
+//@   trusted
+//@   modifies nothing
+//@   pure
+//@   ensures r0 == 1.0 - igamcR(a, x)
